@@ -23,7 +23,8 @@ FUNCTIONS = ["strax.run_selection.define_run", "Context.get_components (superrun
              "strax.utils.multi_run (subrun make)", "Context.is_stored"]
 BOUNDS = {
     "quick": "1..3 subruns with independent symbolic layouts (<=2 chunks, <=2 rows each); superrun-capable level at depth "
-             "1 and 2; combined on the fly and written (write_superruns) + re-read; redefinition of the superrun",
+             "1 and 2; combined on the fly and written (write_superruns) + re-read, also rechunked on save across subrun "
+             "borders (1-row target); redefinition of the superrun",
     "thorough": "4 subruns, <=3 chunks per subrun",
 }
 ASSUMPTIONS = ["run-level start/end metadata are concrete, ordered datetimes (datetime objects are not encoded)",
@@ -41,18 +42,28 @@ def _setup():
     return inj
 
 
-def P_up(name, dep, obj, offset, allow=True):
-    P = ctx.P_map(name, dep, obj, offset=offset, rechunk_on_save=False)
+def _tsm(rows, obj):
+    isz = ctx.dt(ctx.VAL, obj).itemsize
+    v = (rows + 0.5) * isz / 1e6
+    assert int((v * 1e6) // isz) == rows
+    return v
+
+
+def P_up(name, dep, obj, offset, allow=True, rechunk=None):
+    P = ctx.P_map(name, dep, obj, offset=offset, rechunk_on_save=rechunk is not None)
     P.allow_superrun = allow
+    if rechunk is not None:
+        P.chunk_target_size_mb = _tsm(rechunk, obj)
     return P
 
 
-def build(layouts, obj, write):
+def build(layouts, obj, write, rechunk=None):
     import strax
 
     MemFrontend, _, _ = ctx.make_storage_classes()
     fe = MemFrontend()
-    P = [ctx.P_source_runs("src", "ksrc", layouts, obj), P_up("m1", "src", obj, 1), P_up("t1", "m1", obj, 2)]
+    P = [ctx.P_source_runs("src", "ksrc", layouts, obj), P_up("m1", "src", obj, 1, rechunk=rechunk),
+         P_up("t1", "m1", obj, 2, rechunk=rechunk)]
     st = ctx.make_context(P, storage=[fe])
     st.set_context_config({"write_superruns": write})
     runs = sorted(layouts)
@@ -80,24 +91,8 @@ def _layouts(spec, sym, model=None):
     return layouts
 
 
-def _check(st, fe, runs, layouts, target, write, redefine):
-    off = {"m1": 1, "t1": 2}[target]
-    # subruns whose data ranges are contiguous and have no zero-duration chunks: the strict statement must hold;
-    # with a gap between subruns (absorbed into a chunk by concatenation) see known finding F-C14
-    rs = sorted(layouts)
-    nogap = sand(*[layouts[rs[k + 1]].bounds[0] == layouts[rs[k]].bounds[-1] for k in range(len(rs) - 1)],
-                 *[L.bounds[j + 1] > L.bounds[j] for L in layouts.values() for j in range(len(L.bounds) - 1)])
-    want = []
-    for r in runs:
-        for (t, e, i) in layouts[r].rows:
-            want.append((i, t, e, (e - t) + off))
-    chunks = list(st.get_iter(SUP, target, processor="single_thread", progress_bar=False))
-    got = [(int(c.data["id"][q]), c.data["time"][q], c.data["endtime"][q], c.data["val"][q]) for c in chunks
-           for q in range(len(c.data))]
-    prove([g[0] for g in got] == [w[0] for w in want], f"superrun:rows are not the subruns' rows in run-start order: {[g[0] for g in got]}")
-    for g, w in zip(got, want):
-        prove(sand(g[1] == w[1], g[2] == w[2], g[3] == w[3]), "superrun:row content differs from the subrun's own result")
-    # every chunk records exactly the subruns (and spans) it was built from
+def _check_records(chunks, runs, layouts, nogap):
+    """every chunk records exactly the subruns (and spans) it was built from"""
     for c in chunks:
         if c.subruns is None:
             prove(sand(len(c.data) == 0, c.start == c.end), "superrun:non-empty chunk without subrun annotation")
@@ -124,13 +119,41 @@ def _check(st, fe, runs, layouts, target, write, redefine):
         for a, b in zip(covered, covered[1:]):
             prove(implies(nogap, a["end"] == b["start"]), f"superrun:recorded spans of a subrun not contiguous (contiguous subruns)")
             prove(a["end"] == b["start"], "superrun:recorded spans of a subrun overlap (gap between subruns)")
+
+
+def _check(st, fe, runs, layouts, target, write, redefine):
+    off = {"m1": 1, "t1": 2}[target]
+    # subruns whose data ranges are contiguous and have no zero-duration chunks: the strict statement must hold;
+    # with a gap between subruns (absorbed into a chunk by concatenation) see known finding F-C14
+    rs = sorted(layouts)
+    nogap = sand(*[layouts[rs[k + 1]].bounds[0] == layouts[rs[k]].bounds[-1] for k in range(len(rs) - 1)],
+                 *[L.bounds[j + 1] > L.bounds[j] for L in layouts.values() for j in range(len(L.bounds) - 1)])
+    want = []
+    for r in runs:
+        for (t, e, i) in layouts[r].rows:
+            want.append((i, t, e, (e - t) + off))
+    chunks = list(st.get_iter(SUP, target, processor="single_thread", progress_bar=False))
+    got = [(int(c.data["id"][q]), c.data["time"][q], c.data["endtime"][q], c.data["val"][q]) for c in chunks
+           for q in range(len(c.data))]
+    prove([g[0] for g in got] == [w[0] for w in want], f"superrun:rows are not the subruns' rows in run-start order: {[g[0] for g in got]}")
+    for g, w in zip(got, want):
+        prove(sand(g[1] == w[1], g[2] == w[2], g[3] == w[3]), "superrun:row content differs from the subrun's own result")
+    _check_records(chunks, runs, layouts, nogap)
     if write:
         prove(st.is_stored(SUP, target), "superrun:not stored although write_superruns is on")
         again = st.get_array(SUP, target, processor="single_thread", progress_bar=False)
         prove([int(x) for x in again["id"]] == [w[0] for w in want], "superrun:re-read rows differ")
         for q, w in enumerate(want):
             prove(again["val"][q] == w[3], "superrun:re-read values differ")
+        # what was written (possibly rechunked across subrun borders by the saver) and is now loaded from storage
+        stored = list(st.get_iter(SUP, target, processor="single_thread", progress_bar=False))
+        prove([int(x) for c in stored for x in c.data["id"]] == [w[0] for w in want], "superrun:re-read chunks' rows differ")
+        _check_records(stored, runs, layouts, nogap)
         md = st.get_metadata(SUP, target)
+        prove(len(md["chunks"]) == len(stored), "superrun:stored metadata chunk count")
+        for ci, c in zip(md["chunks"], stored):
+            if ci.get("subruns") is not None and c.subruns is not None:
+                prove(sorted(ci["subruns"]) == sorted(c.subruns), "superrun:stored chunk metadata records other subruns than the chunk")
         for ci in md["chunks"]:
             prove(sor(ci.get("subruns") is not None, sand(ci["n"] == 0, ci["start"] == ci["end"])),
                   "superrun:stored chunk metadata lacks subruns")
@@ -143,9 +166,9 @@ def _check(st, fe, runs, layouts, target, write, redefine):
     return [g[0] for g in got]
 
 
-def sym_superrun(spec, target="t1", write=False, redefine=False):
+def sym_superrun(spec, target="t1", write=False, redefine=False, rechunk=None):
     layouts = _layouts(spec, True)
-    st, fe, runs = build(layouts, True, write)
+    st, fe, runs = build(layouts, True, write, rechunk)
     st.define_run(SUP, runs)
     return _check(st, fe, runs, layouts, target, write, redefine)
 
@@ -157,7 +180,7 @@ def nat_superrun(params, model):
         inj = None
         import strax.utils as su
 
-        st, fe, runs = build(layouts, False, params.get("write", False))
+        st, fe, runs = build(layouts, False, params.get("write", False), params.get("rechunk"))
         st.define_run(SUP, runs)
         label = core.concrete_run(lambda: _check(st, fe, runs, layouts, params.get("target", "t1"),
                                                  params.get("write", False), params.get("redefine", False)), model)
@@ -178,6 +201,10 @@ def _grid(tier):
         for tgt in ("m1", "t1"):
             g.append(dict(spec=s, target=tgt))
             g.append(dict(spec=s, target=tgt, write=True, redefine=(tgt == "t1")))
+            # written superrun rechunked by the saver (1-row target): get_splits cuts once >= 3 rows are cached, at
+            # (row time - 500 ns), which the solver may place exactly on / next to a subrun border
+            if sum(len(v) and sum(v) for v in s.values()) >= 3:
+                g.append(dict(spec=s, target=tgt, write=True, rechunk=1))
     return g
 
 
